@@ -1,10 +1,12 @@
 import SplinkVerif.Model.Rel
 import SplinkVerif.Generated.DescSql
 /-!
-# Two descriptive statements at the level of the SQL they emit
+# The descriptive statements at the level of the SQL they emit
 
 `term_frequencies_for_single_column_sql` and the per-column sub-select of `completeness_data`: the regenerated terms of
-`Generated/DescSql.lean`, each a single statement, evaluated on the encoded column.
+`Generated/DescSql.lean`, each a single statement, evaluated on the encoded column.  Second part: the comparison-vector
+distribution (one statement, any list of gamma columns), the histogram (two statements) and the unlinkables listing (three
+statements), evaluated on any database.
 -/
 namespace SplinkVerif.DescSql
 open SplinkVerif.Rel
@@ -22,5 +24,27 @@ def tfTable (col : List (Option Nat)) : List Row :=
 def completenessCol (sd : List Nat) (col : List (Option Nat)) : List Row :=
   Gen.DescSql.completenessCol.eval
     (Db.set (fun _ => []) "cws_in" ((sd.zip col).map fun p => [Val.int (p.1 : Int), encCell p.2]))
+
+/-! ## Comparison-vector distribution, match-weight histogram, unlinkables
+
+`comparison_vector_distribution_sql` is one statement over `__splink__df_predict` (`cv_in`); `histogram_data` enqueues the two statements
+of `_hist_sql` over `__splink__df_predict` (`pred_in`) and returns the last; `unlinkables_data` enqueues three statements over the
+self-link table (`self_in`) and returns the last. -/
+
+/-- `__splink__df_comparison_vector_distribution` for the gamma columns `gs` (expressions over a row of `cv_in`), on any database. -/
+def cvd (gs : List Expr) (db : Db) : List Row := (Gen.DescSql.cvd gs).eval db
+
+/-- The same on a table that holds exactly the `n` gamma columns of the scored pairs (the functional model's input). -/
+def cvdOf (n : Nat) (pairs : List (List Int)) : List Row :=
+  cvd (Gen.DescSql.keyCols n) (Db.set (fun _ => []) "cv_in" (pairs.map fun p => p.map Val.int))
+
+/-- `histogram_data` after `_bins`: `__splink__df_hist` (bin low, width, count, bin high); `bin` is the binning expression, `bw` the width. -/
+def histogram (bin : Expr) (bw : Val) (db : Db) : List Row :=
+  runStmts db (Gen.DescSql.histStmts bin bw) "__splink__df_hist"
+
+/-- `unlinkables_data`: `__splink__df_unlinkables_proportions_cumulative` (match_weight, match_probability, prop, cum_prop); `rw`, `rp` are
+the two rounding expressions over a row of `self_in`. -/
+def unlinkables (rw rp : Expr) (db : Db) : List Row :=
+  runStmts db (Gen.DescSql.unlStmts rw rp) "__splink__df_unlinkables_proportions_cumulative"
 
 end SplinkVerif.DescSql
